@@ -37,12 +37,30 @@ def run(ck):
             p["id"] = len(progs) + 1
             p["family"] = fam
             progs.append(p)
+    # hand-written layouts the generators do not reach: constant pools beyond 255 entries with a capturing function literal behind
+    # them (index >= 256 before de-duplication; below / above 256 after it), embedder-supplied modules that are plain objects
+    # with duplicates before them, a builtin module with mutable container attributes that the script changes
+    def special(src, **kw):
+        p = {"id": len(progs) + 1, "family": "special", "src": src, "inputs": [], "mods": []}
+        p.update(kw)
+        progs.append(p)
+    for distinct, dups in ((300, 0), (300, 40), (245, 30), (250, 8), (254, 3), (520, 300)):
+        src = "a := [" + ", ".join(str(1000 + i) for i in range(distinct)) + "]\n"
+        src += "".join('d%d := "dup%d"\n' % (i, i % 3) for i in range(dups))
+        src += "x := 5\nf := func(y) { return x + y + 777000 }\ng := func() { return func() { return x * 2 } }\nout := [f(1), g()(), a[%d]]\n" % (distinct - 1)
+        special(src)
+    for kind in ("map", "array", "int", "string", "immutable-map-noname", "undefined"):
+        for pre in ("", 'a := "dup"\nb := "dup"\nc := 5\nd := 5\n', 'a := "dup"\nb := "dup"\nc := "dup"\nf := func() { return "dup" }\n'):
+            special(pre + 'cfg := import("weird")\nother := import("weird")\nout := [cfg, other, "tail", 5]\n', weird=kind)
+    special('st := import("st")\nst.counter.n += st.step\nout := st.counter.n\n', statemod=True)
+    special('st := import("st")\nst.counter.n += st.step\nst.counter.n += st.step\nst2 := import("st")\nout := [st.counter.n, st2.counter.n, len(st.log)]\n', statemod=True,
+            cell="stateful-builtin-module-imported-twice")
     byid = {p["id"]: p for p in progs}
-    cases = [{"id": p["id"], "src": p["src"], "inputs": p.get("inputs", []),
+    cases = [{"id": p["id"], "src": p["src"], "inputs": p.get("inputs", []), "weird": p.get("weird", ""), "statemod": bool(p.get("statemod")),
               "mods": p.get("mods", []), "stdlib": bool(p.get("stdlib"))} for p in progs]
     res = vlib.run_cases(ck, "pipelines", cases, nproc=8)
     pairs, dumpsB, dumpsC = [], {}, {}
-    plain = [p for p in progs if not p.get("stdlib")]
+    plain = [p for p in progs if not p.get("stdlib") and p.get("family") != "special"]
     outs = semlib.tlc_outcomes(ck, [p for p in plain if p["id"] in {c["id"] for c in cases}], njobs=10)
     same3 = 0
     for c in cases:
@@ -70,8 +88,12 @@ def run(ck):
         key = lambda x: json.dumps({k: v for k, v in x.items() if k not in ("recovered",)}, sort_keys=True)
         if deterministic:
             if key(a) != key(b):
-                ck.violation("dedup-behaviour", "raw and de-duplicated bytecode behave differently:\n%s\nraw:   %s\ndedup: %s" % (
+                ck.violation("dedup-behaviour" + (":" + p["cell"] if p.get("cell") else ""), "raw and de-duplicated bytecode behave differently:\n%s\nraw:   %s\ndedup: %s" % (
                     p["src"], json.dumps(a)[:500], json.dumps(b)[:500]), {"program": p, "A": a, "B": b})
+                continue
+            if "C2" in o and key(cc) != key(o["C2"]):
+                ck.violation("gob-second-decode", "the same encoding decoded a second time (same module map) behaves differently:\n%s\nfirst:  %s\nsecond: %s" % (
+                    p["src"], json.dumps(cc)[:500], json.dumps(o["C2"])[:500]), {"program": p, "C": cc, "C2": o["C2"]})
                 continue
             if key(b) != key(cc):
                 ck.violation("gob-behaviour", "bytecode read back from its encoding behaves differently:\n%s\nbefore: %s\nafter:  %s" % (
